@@ -420,6 +420,10 @@ class CExec:
         p = z3.IntVal(1 << kk.as_long()) if z3.is_int_value(kk) and 0 <= kk.as_long() < 200 else S.pow2(kk)
         if op == "<<":
             m = x.t * p
+            if z3.is_int_value(x.t) and z3.is_int_value(p):
+                m = z3.IntVal(x.t.as_long() * p.as_long())
+                if not ty.signed:
+                    return CV(ty, z3.IntVal(m.as_long() % (1 << w)))
             if ty.signed:
                 if not self.opt["wrapv"]:
                     self.oblige(st, "ub", "shift_negative", x.t >= 0, node)
@@ -990,7 +994,10 @@ class CExec:
         args = [self.ev(st, a) for a in argn]
         sub = type(self).__new__(type(self))
         sub.__dict__.update(self.__dict__)
-        sub.func = self._find_function(name)
+        try:
+            sub.func = self._find_function(name)
+        except StaleContract:
+            raise OutOfSubset("call to %s: no contract, and its body is not part of the extracted translation unit" % name)
         sub.returns = []
         params = [c for c in sub.func.get("inner", []) if c["kind"] == "ParmVarDecl"]
         s2 = st.copy()
